@@ -234,7 +234,7 @@ package udp
 //@   modifies c.counter, c.results[*], ghost.held[addr(c.lock)], ghost.chansent[*], ghost.chanlen[*], ghost.chanrecv[*]
 //@   ensures [too_large_for_one_datagram_is_refused] len(request) > 65499 ==> err == core.ErrRequestEntityTooLarge && response == nil
 //@   ensures [index_is_15_bit] len(request) <= 65499 ==> 0 <= index && index < 32768
-//@   loop 1 invariant 0 <= index && index < 32768 && ghost.held[addr(c.lock)] == old(ghost.held[addr(c.lock)])
+//@   loop 1 invariant 0 <= index && index < 32768
 //@   loop 1 invariant forall(k, !(haskey(c.results, k) && c.results[k] == resultChan))
 //@   ensures [gave_up_leaves_no_entry] len(request) <= 65499 && err != nil && ghost.chanrecv[resultChan] == 0 ==> !(haskey(c.results, index) && c.results[index] == resultChan)
 
